@@ -16,6 +16,7 @@ while [ $i -lt $JOBS ]; do
     while read d; do
       k=$(basename $d)
       prop=$(/venv/bin/python -c "import json; print(json.load(open('$d/meta.json'))['property'])" 2>/dev/null)
+      if /venv/bin/python -c "import json,sys; m=json.load(open('$d/meta.json')); sys.exit(0 if (m.get('obsolete') or m.get('judged') is False) else 1)" 2>/dev/null; then echo "$k $prop SKIPPED (obsolete or withdrawn, see meta.json)" >> $TMP/out$i; continue; fi
       cd $TMP/wt$i && git checkout -q -- . && git clean -fdq
       git apply $d/patch.diff || { echo "$k $prop APPLY-FAILED" >> $TMP/out$i; continue; }
       (cd $HERE && NAUYACA_REPO=$TMP/wt$i ./check $prop --tier quick > $TMP/log_$k 2>&1; echo "$k $prop exit=$? violations=$(grep -c '^VIOLATION' $TMP/log_$k) $(grep -m1 -A1 '^VIOLATION' $TMP/log_$k | tail -1 | cut -c1-180)" >> $TMP/out$i)
